@@ -193,7 +193,7 @@ func harnessFilter(prop string) func(string) bool {
 		if strings.HasPrefix(rel, "nd/") {
 			return true
 		}
-		return strings.HasPrefix(base, "zz_verif_"+prop+"_") || strings.HasPrefix(base, "zz_verif_"+prop+".") || strings.HasPrefix(base, "zz_verif_common")
+		return strings.HasPrefix(base, "zz_verif_"+prop+"_") || strings.HasPrefix(base, "zz_verif_"+prop+".") || strings.HasPrefix(base, "zz_verif_common") || strings.HasPrefix(base, "zz_verif_export")
 	}
 }
 
@@ -219,7 +219,9 @@ func runCheck(prop, tier string, seed int, only string, verbose bool, workers in
 			pats = append(pats, d)
 		} else {
 			for p := range ov {
-				if filepath.Dir(p) == filepath.Join(repoDir, d) {
+				// zz_verif_export_* (tag-guarded constructors for unexported fields used by
+				// harnesses of other packages) stay in the overlay of every check
+				if filepath.Dir(p) == filepath.Join(repoDir, d) && !strings.HasPrefix(filepath.Base(p), "zz_verif_export") {
 					delete(ov, p)
 				}
 			}
@@ -531,7 +533,7 @@ func nativeReplay(prop, vecPath string) string {
 	i := 0
 	for target, content := range ov {
 		// keep only files in the harness's package dir and nd
-		if filepath.Dir(target) != pkgDir && !strings.Contains(target, "/zzverif/") {
+		if filepath.Dir(target) != pkgDir && !strings.Contains(target, "/zzverif/") && !strings.HasPrefix(filepath.Base(target), "zz_verif_export") {
 			continue
 		}
 		f := filepath.Join(work, fmt.Sprintf("f%d.go", i))
